@@ -579,7 +579,7 @@ func (c *Context) Sqrt(d, x *Decimal) (Condition, error) {
 	approx.Set(d)
 	f.Exponent += int32(e)
 	res := nc.round(d, d)
-	if res.Inexact() && !res.Subnormal() && d.Form == Finite {
+	if res.Inexact() && d.Form == Finite {
 		// approx is itself a rounded value, within a unit of its last digit
 		// of the root. When the root lies that close to the midpoint of two
 		// results, rounding approx can go the wrong way, or see a tie where
@@ -603,13 +603,14 @@ func (c *Context) Sqrt(d, x *Decimal) (Condition, error) {
 // digits, by the half-even rounding of the exact square root of x, given that
 // approx is within one unit of its last digit of that root: the root is
 // compared with the midpoint between approx truncated to nc.Precision digits
-// and its successor, exactly, through the squares.
+// (or, for a subnormal root, at the exponent Etiny) and its successor,
+// exactly, through the squares.
 func sqrtSettle(nc *Context, d, approx, x *Decimal) Condition {
 	var t, mid, sq Decimal
 	down := *nc
 	down.Rounding = RoundDown
-	if res := down.round(&t, approx); !res.Inexact() || res.Subnormal() || t.Form != Finite ||
-		t.NumDigits() != int64(nc.Precision) {
+	if res := down.round(&t, approx); !res.Inexact() || t.Form != Finite ||
+		(t.NumDigits() != int64(nc.Precision) && !res.Subnormal()) {
 		return 0
 	}
 	// mid = t + ulp/2, and its square, exactly.
